@@ -247,7 +247,7 @@ def _tt():
             self.calls = []          # (k, position list) for every _call
             self.backwards = []      # call index of every backward
             self.plan = plan         # failure plan: per trial None | [kind, index]
-            self.trial = 0
+            self.trial = -1          # no failure injection before the first momentum draw
             self.n_call_trial = 0
             self.n_back_trial = 0
 
@@ -256,7 +256,7 @@ def _tt():
             self.trial, self.n_call_trial, self.n_back_trial = t, 0, 0
 
         def _fail(self, kind, idx):
-            if not self.plan or self.trial >= len(self.plan):
+            if not self.plan or self.trial < 0 or self.trial >= len(self.plan):
                 return False
             f = self.plan[self.trial]
             return f is not None and f[0] == kind and int(f[1]) == idx
@@ -347,7 +347,10 @@ def _integrator_class(variant):
             raise Undecided("vacuity twin %s cannot be built: pattern %r occurs %d times in the current source" % (variant, old, src.count(old)))
         src = src.replace(old, new)
     ns = {}
-    exec(compile(src, "<C16 twin %s>" % variant, "exec"), tt["int_mod"].__dict__, ns)
+    fname = "<C16 twin %s>" % variant
+    import linecache
+    linecache.cache[fname] = (len(src), None, src.splitlines(True), fname)  # so that inspect.getsource works on the twin (loop cut)
+    exec(compile(src, fname, "exec"), tt["int_mod"].__dict__, ns)
     _TWIN_CACHE[variant] = ns["LeapfrogIntegrator"]
     return ns["LeapfrogIntegrator"]
 
@@ -956,6 +959,38 @@ class _Draws:
         return _Dist
 
 
+class _TorchProxy:
+    """stands for the `torch` global of one module: forwards everything except the named entries"""
+
+    def __init__(self, **over):
+        self.__dict__["_over"] = over
+
+    def __getattr__(self, n):
+        o = self.__dict__["_over"]
+        return o[n] if n in o else getattr(torch, n)
+
+
+class _InfST(ST):
+    """divergence_threshold = +inf (the JSON option "inf") for symbolic runs: `x > thr` resolves, by Python's
+    reflected-operand rule for subclasses, to `thr < x`, which is False for every real x.  (vt.nf has no infinite
+    constants; this switches the print-only divergence diagnostic off instead of forking on it.)"""
+
+    def __init__(self):
+        super().__init__(np.zeros((), dtype=object))
+
+    def __lt__(self, o):
+        return torch.tensor(False)
+
+    def __le__(self, o):
+        return torch.tensor(False)
+
+    def __gt__(self, o):
+        return torch.tensor(True)
+
+    def __ge__(self, o):
+        return torch.tensor(True)
+
+
 @contextlib.contextmanager
 def _patched(mod, **names):
     old = {k: getattr(mod, k) for k in names}
@@ -968,7 +1003,7 @@ def _patched(mod, **names):
             setattr(mod, k, v)
 
 
-def scn_hastings(d, sizes, rank, steps, plan, integ_kind="real", spec="inverse"):
+def scn_hastings(d, sizes, rank, steps, plan, integ_kind="real", spec="inverse", warm=False, inv="real", threshold="inf"):
     """plan: one entry per trial of _step: None (trial succeeds) | ["U", k] (k-th model call of the trial returns NaN) |
     ["G", j] (j-th backward of the trial yields NaN gradients).  The last entry is None unless all 10 trials fail."""
     plan = [None if f is None else list(f) for f in plan]
@@ -1022,10 +1057,30 @@ def scn_hastings(d, sizes, rank, steps, plan, integ_kind="real", spec="inverse")
         mass = tt["Parameter"]("mass", env.M)
         draws = _Draws(env, momenta)
         sink = io.StringIO()
-        with _patched(tt["ham_mod"], Normal=draws.make("normal"), MultivariateNormal=draws.make("mvn")), contextlib.redirect_stdout(sink):
-            op = tt["op_mod"].HMCOperator("hmc", env.model, env.params, integ, mass, 1.0, 0.8, [])
+        inv_log = []
+        patches = {}
+        if inv == "stub":
+            # assumed contract of torch.inverse for the operator: "returns W with W·M = I"; W is a fresh symmetric input
+            W_any = _symmetric(mk, "Winv", d, 0.5, 1.5, 0.05)
+
+            def _inverse(m):
+                inv_log.append(m)
+                return W_any
+            patches["torch"] = _TorchProxy(inverse=_inverse)
+        if threshold == "inf":
+            thr = _InfST() if mk.symbolic else float("inf")
+            kw = {"divergence_threshold": thr}
+        else:
+            kw = {}
+        with _patched(tt["ham_mod"], Normal=draws.make("normal"), MultivariateNormal=draws.make("mvn")), \
+                _patched(tt["op_mod"], **patches), contextlib.redirect_stdout(sink):
+            op = tt["op_mod"].HMCOperator("hmc", env.model, env.params, integ, mass, 1.0, 0.8, [], **kw)
             with torch.no_grad():
                 lj0 = env.model()          # as MCMC.run does before the loop
+            if not warm:
+                # cold cache, as after a rejected iteration: MCMCOperator.reject re-assigns the tensors
+                for prm in env.params:
+                    prm.tensor = prm.tensor
             h = op.step()                  # real MCMCOperator.step -> real HMCOperator._step
             q_after = env.position()
             with torch.no_grad():
@@ -1040,8 +1095,11 @@ def scn_hastings(d, sizes, rank, steps, plan, integ_kind="real", spec="inverse")
             Winv = [1 / x for x in _vec(env.M)]
             Mspec = _vec(env.M)
         else:
-            Winv = _cofactor_inverse(_mat(env.M))
             Mspec = _mat(env.M)
+            if inv == "stub":
+                Winv = _mat(W_any)
+            else:
+                Winv = _cofactor_inverse(Mspec)
         if spec == "wrong_M":      # vacuity twin only: a WRONG postcondition (K with M instead of M⁻¹)
             Winv = Mspec
         q0 = _vec(env.q)
@@ -1057,6 +1115,8 @@ def scn_hastings(d, sizes, rank, steps, plan, integ_kind="real", spec="inverse")
             cl.append(("eq", "draw_covariance_is_M", [x for r in _mat(par) for x in r], [x for r in Mspec for x in r]))
         for t in range(len(draws.log)):
             cl.append(("eq", "drawn_momentum%d_not_mutated" % t, momenta[t], mom_in[t]))
+        if inv == "stub":
+            cl.append(("true", "inverse_taken_of_M", len(inv_log) >= 1 and all(m is env.M for m in inv_log), "%d calls" % len(inv_log)))
         cl.append(("true", "requires_grad_cleared", flags))
         cl.append(("eq", "reject_restores_saved_state", q_rejected, q0))
         if all_fail:
